@@ -11,6 +11,7 @@ Code ~ Spec: every TLC-enumerated (shape, operation sequence) is executed on a r
 import copy
 import hashlib
 import io
+import json
 import os
 import tempfile
 
@@ -162,6 +163,158 @@ def run_sequence(out, fmts, with_predictions=True):
     return steps
 
 
+# ---------------------------------------------------------------- FileStore.tla: objects, paths written again and again, in-place edits
+def fs_canon(v):
+    """Value-level canonical form (what == compares): numpy scalars as Python numbers, tuples as lists, bytes as hex."""
+    if isinstance(v, dict):
+        return {str(k): fs_canon(x) for k, x in sorted(v.items(), key=lambda kv: str(kv[0]))}
+    if isinstance(v, (list, tuple)):
+        return [fs_canon(x) for x in v]
+    if isinstance(v, np.ndarray):
+        return fs_canon(v.tolist())
+    if isinstance(v, bytes):
+        return v.hex()
+    if isinstance(v, (bool, np.bool_)):
+        return bool(v)
+    if isinstance(v, (int, np.integer)):
+        return int(v)
+    if isinstance(v, (float, np.floating)):
+        return float(v).hex()
+    return v if v is None or isinstance(v, str) else repr(v)
+
+
+def fs_digest(out):
+    return hashlib.sha1(json.dumps(fs_canon(project(out))).encode()).hexdigest()
+
+
+def fs_sessions(jobs):
+    """Behaviours of FileStore on REAL Output objects, many per process (the path strings repeat from session to session)."""
+    cards.silence()
+    import shutil
+    from yadism.output import Output
+
+    res = []
+    base = os.path.join(tempfile.gettempdir(), f"c15fs_{os.getpid()}")
+    for sid, events in jobs:
+        shutil.rmtree(base, ignore_errors=True)
+        os.makedirs(base)
+        # the caller's outputs: distinct contents (origin i), version = number of in-place edits (Q2 of the first point doubled)
+        objs = [build(dict(rep="list", kinds=["SF", "XS"], npts=1 + i, keys=[[0, 0, 0, 0], [1, 0, 0, 0]], vcls="normal")) for i in range(2)]
+        fmt_of = {}
+        lines = [dict(sid=sid, ev="Begin")]
+        for e in events:
+            ln = dict(sid=sid, ev=e[0])
+            if e[0] == "dump":
+                _ev, h, pth, f = e
+                ln.update(h=h, p=pth, f=f, outcome="ok")
+                try:
+                    (objs[h - 1].dump_tar if f == "tar" else objs[h - 1].dump_yaml_to_file)(os.path.join(base, pth + ".tar"))
+                    fmt_of[pth] = f
+                except Exception as ex:
+                    ln["outcome"] = "raised_" + type(ex).__name__
+            elif e[0] == "load":
+                pth = e[1]
+                ln.update(p=pth, outcome="ok")
+                try:
+                    fn = Output.load_tar if fmt_of[pth] == "tar" else Output.load_yaml_from_file
+                    objs.append(fn(os.path.join(base, pth + ".tar")))
+                except Exception as ex:
+                    ln["outcome"] = "raised_" + type(ex).__name__
+            else:
+                h = e[1]
+                ln.update(h=h)
+                o = objs[h - 1]
+                first = min(n for n in o if isinstance(o[n], list) and o[n] and hasattr(o[n][0], "Q2"))   # (a name, not a position: loaders may reorder entries)
+                o[first][0].Q2 = float(o[first][0].Q2) * 2.0
+            ln["digests"] = [fs_digest(o) for o in objs]
+            lines.append(ln)
+        res.append(lines)
+    shutil.rmtree(base, ignore_errors=True)
+    return res
+
+
+def fs_cfg(mode="fresh", **kw):
+    c = dict(NOuts=2, Paths={"p1", "p2"}, Fmts={"tar", "yaml"}, MaxEvents=5, MaxLoads=2, LoadMode=mode)
+    c.update(kw)
+    return c
+
+
+def fs_validate(ctx, sessions, name):
+    import re
+    dig = {}
+    rows = []
+    for s_ in sessions:
+        for e in s_:
+            e = dict(e)
+            if "digests" in e:
+                e["digests"] = [dig.setdefault(d, len(dig) + 1) for d in e["digests"]]
+            rows.append(e)
+    rows.append(dict(ev="EOF", sid=-2))
+    tf = ctx.dir / f"{name}.trace.ndjson"
+    common.write_ndjson(tf, rows)
+    r = common.run_tlc("Trace_FileStore", common.cfg_text(fs_cfg(MaxEvents=64, MaxLoads=64), invariants=["LoadIsCurrent"], spec="TraceSpec"),
+                       workdir=ctx.dir / f"tlc_{name}", env=dict(TRACE_FILE=tf), workers=1)
+    if not r["ok"]:
+        raise common.MachineryError(f"Trace_FileStore did not complete: {r['out'][-1500:]}")
+    m = re.search(r'<<\s*"CONSUMED",\s*(\d+)\s*>>', r["out"])
+    if not m or int(m.group(1)) != len(rows) - 1:
+        raise common.MachineryError(f"Trace_FileStore consumed {m.group(1) if m else '?'} of {len(rows) - 1} lines")
+    bad = {}
+    for m in re.finditer(r'<<\s*"VERDICT",\s*"(-?\d+)",\s*"([^"]+)"\s*>>', r["out"]):
+        bad.setdefault(int(m.group(1)), m.group(2))
+    ctx.cov["tlc_runs"].append(dict(module="Trace_FileStore", cfg=name, states=r["distinct"], wall_s=round(r["wall"], 1), role="validate",
+                                    lines=len(rows), rejected=len(bad)))
+    return bad
+
+
+def fs_run(ctx):
+    q = ctx.quick
+    ctx.tlc_check("FileStore", common.cfg_text(fs_cfg(MaxEvents=5 if q else 6), invariants=["LoadIsCurrent"], properties=["Independent"]),
+                  coverage=False, min_states=10000, min_depth=5)
+    r = common.run_tlc("FileStore", common.cfg_text(fs_cfg("memo_by_path"), invariants=["LoadIsCurrent"]), workdir=ctx.dir / "tlc_fs_memo")
+    if r["ok"] or r["invariant_violated"] != "LoadIsCurrent":
+        raise common.MachineryError("FileStore model lost its sensitivity: a loader memoised on the path must violate LoadIsCurrent")
+    ctx.cov["filestore_negative_control"] = "LoadMode=memo_by_path violates LoadIsCurrent (TLC counterexample found)"
+    beh = []
+    for c in ([dict(MaxEvents=4, Paths={"p1"})] if q else [dict(MaxEvents=4, Paths={"p1"}), dict(MaxEvents=5, Paths={"p1", "p2"}, Fmts={"tar"}), dict(MaxEvents=5, Paths={"p1"}, Fmts={"yaml"})]):
+        beh += ctx.tlc_emit("Emit_FileStore", common.cfg_text(fs_cfg(**c), invariants=["Collect"], postcondition="Written"), workers=1)
+    sessions = list(enumerate(beh))
+    nproc = 8
+    res = ctx.pmap(fs_sessions, [sessions[i::nproc] for i in range(nproc)])
+    recorded = sorted((s_ for part in res for s_ in part), key=lambda s_: s_[0]["sid"])
+    ctx.cov["filestore_behaviours"] = len(recorded)
+    for s_ in recorded:
+        ctx.count(1, nontrivial_key=("fs", s_[0]["sid"]))
+    bad = fs_validate(ctx, recorded, "filestore")
+    ctx.cov["traces_validated_against_impl"] += len(recorded)
+    for sid, clause in sorted(bad.items()):
+        ctx.violation(f"filestore:{common.oid_of('C15', dict(events=beh[sid]))}:{clause}", f"{clause} in the recorded history {json.dumps(beh[sid])}",
+                      dict(kind="C15-filestore", events=beh[sid], clause=clause))
+    good = [s_ for s_ in recorded if s_[0]["sid"] not in bad and len(s_) >= 4][:2]
+    cor, names = [], {}
+    for k, nm in enumerate(("loaded_digest", "outcome", "object_count")):
+        for s_ in good:
+            c = copy.deepcopy(s_)
+            for e in c:
+                e["sid"] += 10 ** 5 * (k + 1)
+            lastl = [e for e in c if e["ev"] == "load"][-1]
+            if nm == "loaded_digest":
+                lastl["digests"][-1] = "corrupted"
+            elif nm == "outcome":
+                lastl["outcome"] = "raised_Corrupted"
+            else:
+                lastl["digests"] = lastl["digests"][:-1]
+            names[c[0]["sid"]] = nm
+            cor.append(c)
+    badc = fs_validate(ctx, recorded[:20] + cor, "selftest_filestore")
+    ctx.cov["tlc_runs"] = [r_ for r_ in ctx.cov["tlc_runs"] if r_.get("cfg") != "selftest_filestore"]
+    st = ctx.cov.setdefault("binding_selftest", {}).setdefault("Trace_FileStore", dict(corrupted_lines=len(cor), rejected=0, fields=sorted(set(names.values()))))
+    st["rejected"] = len([s_ for s_ in names if s_ in badc])
+    missed = sorted({nm for sid, nm in names.items() if sid not in badc})
+    if missed:
+        raise common.MachineryError(f"binding self-test: Trace_FileStore accepted histories corrupted in {missed}")
+
+
 def execute(ob):
     cards.silence()
     out = build(ob)
@@ -236,9 +389,16 @@ def run(ctx):
             if not r["ok"]:
                 ctx.violation(f"runner:{r['name']}:{'>'.join(r['fmts'])}", f"real runner output {r['name']} through {r['fmts']}: {r['note']}",
                               dict(kind="C15-real", name=r["name"]))
+    # objects, paths that are written again and again, in-place edits of loaded objects (FileStore.tla)
+    fs_run(ctx)
 
 
 def replay(ctx, obj):
+    if obj.get("kind") == "C15-filestore":
+        rec = fs_sessions([(0, obj["events"])])
+        bad = fs_validate(ctx, rec, "replay_filestore")
+        print("history:", obj["events"], "verdicts:", bad or "ok")
+        return 1 if bad else 0
     if obj["kind"] == "C15":
         ln = execute(obj["obligation"])
         bad = ctx.tlc_validate("Trace_C15", "Trace.cfg", [{k: v for k, v in ln.items() if k != "note"}])
